@@ -43,6 +43,22 @@ def fid_replace(cfg):
   return fdl.Config(lit2, p=cfg, r='wrapped')
 
 
+def fid_copy(cfg, v=1):
+  """A fiddler in the 'immutable' style: returns a NEW configuration."""
+  APPLIED.append(['fiddler', 'fid_copy'])
+  c = copy.deepcopy(cfg)
+  c.extra = v
+  return c
+
+
+def fid_push(cfg, xs):
+  """Stores a (mutable) literal argument in the configuration."""
+  APPLIED.append(['fiddler', 'fid_push'])
+  blocks = list(cfg.__arguments__.get('blocks', []))
+  blocks.append(xs)
+  cfg.blocks = blocks
+
+
 MODULE = sys.modules[__name__]
 
 
@@ -168,7 +184,11 @@ def run_paths(case):
   items = list(flat.items())
   r.shuffle(items)
   for p, v in items[:6]:
-    if '(' in p or isinstance(follow_parent(cfg, p), tuple):
+    try:
+      if '(' in p or isinstance(follow_parent(cfg, p), tuple):
+        continue
+    except Exception as e:
+      wb.append([p, f'parent does not resolve: {type(e).__name__}'])
       continue
     new = r.choice([41, 'new text', [9, 8], None, 2.25, {'z': 1}, False])
     c2 = copy.deepcopy(cfg)
@@ -208,7 +228,14 @@ def gen_script(r):
       else:
         directives.append(['set', r.choice(['k=1', "r='z'", "p['x']=5", "p['y'][0]=6", 'q.p=2', 'q.q=None'])])
     elif x < 0.9:
-      directives.append(['fiddler', r.choice(['fid_q', 'fid_q(3)', 'fid_q(v=4)'])])
+      directives.append(['fiddler', r.choice(['fid_q', 'fid_q(3)', 'fid_q(v=4)', 'fid_copy', 'fid_copy(2)',
+                                                'fid_push([64, 64])', 'fid_push([64, 64])',
+                                                "fid_push({'n': [1]})"])])
+      blocks = [d[1] for d in directives if d[1].startswith('fid_push')]
+      if blocks and r.random() < 0.5:
+        i = r.randrange(len(blocks))
+        suffix = r.choice(['[0]=128', '[1]=0']) if '[64' in blocks[i] else "['n']=7"
+        directives.append(['set', f'blocks[{i}]{suffix}'])
     else:
       break
   script = []
@@ -228,6 +255,16 @@ def gen_script(r):
 def norm_dir(d):
   """Directive with call arguments stripped (the log records function names)."""
   return [d[0], d[1].split('(')[0] if d[0] != 'set' else d[1]]
+
+
+def my_call_parse(text):
+  """Independent parser for `name(literal, ..., k=literal)`: fresh objects on every call."""
+  import ast
+  if '(' not in text:
+    return text, [], {}
+  call = ast.parse(text).body[0].value
+  return (ast.unparse(call.func), [ast.literal_eval(a) for a in call.args],
+          {k.arg: ast.literal_eval(k.value) for k in call.keywords})
 
 
 def new_flag():
@@ -267,13 +304,13 @@ def run_flags(case):
   try:
     for c, e in directives:
       if c == 'config':
-        ce = flag_utils.CallExpression.parse(e)
-        cur = getattr(MODULE, ce.func_name)(*ce.args, **ce.kwargs)
+        fname, a, k = my_call_parse(e)
+        cur = getattr(MODULE, fname)(*a, **k)
       elif c == 'set':
         real_set(cur, e)
       else:
-        ce = flag_utils.CallExpression.parse(e)
-        res = getattr(MODULE, ce.func_name)(cur, *ce.args, **ce.kwargs)
+        fname, a, k = my_call_parse(e)
+        res = getattr(MODULE, fname)(cur, *a, **k)
         cur = res if res is not None else cur
     obs['expected_final'] = graphs.canon(cur)
   except Exception as e:
@@ -320,6 +357,16 @@ def run_callexpr(case):
     ce = flag_utils.CallExpression.parse(text)
     obs['ok'] = (ce.func_name == name and list(ce.args) == args and ce.kwargs == kwargs
                  and all(type(a) is type(b) for a, b in zip(ce.args, args)))
+    # the parsed literals belong to the caller: editing them must not leak into a later parse
+    for a in list(ce.args) + list(ce.kwargs.values()):
+      if isinstance(a, list):
+        a.append('mutated')
+      elif isinstance(a, dict):
+        a['mutated'] = 1
+      elif isinstance(a, set):
+        a.add('mutated')
+    ce2 = flag_utils.CallExpression.parse(text)
+    obs['ok'] = obs['ok'] and list(ce2.args) == args and ce2.kwargs == kwargs
   except Exception as e:
     obs['ok'] = f'raised {type(e).__name__}'
   return obs
